@@ -16,6 +16,8 @@ pub mod c16;
 pub mod c09;
 pub mod c20;
 pub mod c07;
+pub mod c01;
+pub mod c02;
 pub mod c18;
 
 pub fn lookup(id: &str) -> Option<&'static dyn Prop> {
@@ -37,6 +39,8 @@ pub fn lookup(id: &str) -> Option<&'static dyn Prop> {
         "C09" => Some(&c09::C09),
         "C20" => Some(&c20::C20),
         "C07" => Some(&c07::C07),
+        "C01" => Some(&c01::C01),
+        "C02" => Some(&c02::C02),
         "C18" => Some(&c18::C18),
         _ => None,
     }
